@@ -15,7 +15,7 @@ def run(tier):
     progs = []
     c = os.path.join(wd, "gen.cfg")
     for template in (False, True):
-        open(c, "w").write("SPECIFICATION Spec\nCONSTANTS\n  MaxSteps = 8\n  MaxLen = 24\n  Template = %s\nINVARIANT Emit\nCHECK_DEADLOCK FALSE\n" % ("TRUE" if template else "FALSE"))
+        open(c, "w").write("SPECIFICATION Spec\nCONSTANTS\n  MaxSteps = 8\n  MaxLen = 24\n  Template = %s\n  Arrays = FALSE\nINVARIANT Emit\nCHECK_DEADLOCK FALSE\n" % ("TRUE" if template else "FALSE"))
         g = run_tlc("SemGen", c, "x01", workers=4, cases_suffix="-%s" % template)
         for k, x in enumerate(read_ndjson(g.cases_path)):
             progs.append(sem.instantiate(x["toks"], 5, seed * 7919 + k, template))
